@@ -100,6 +100,16 @@ theorem constraint_exact (j : Nat) (s : Sys) (h : Reach j s) (n : Nat)
   obtain ⟨e, h1, h2⟩ := h.inv12
   exact h2.wf n (by have := (h1.range (n + 1)).mp hn; omega)
 
+/-- **names_unique** — a name table (pools: name ↦ pool, branches: name ↦ tip) replayed from a
+    journal never holds a name twice, at any position, whatever the entries are: the table is keyed
+    by name, Add/Update replace and Delete removes.  Together with `constraint_exact` (an insert or
+    the target of a move is accepted only when the name is absent in exactly the preceding table)
+    no create / rename can take a name that is in use.  (That a *handle's* cached copy of the table
+    also stays duplicate-free is outside the model: harness sub-check `warm`.) -/
+theorem names_unique (s : Sys) (j n : Nat) (t : Table) (h : tableAt s.store j n = some t) :
+    (t.map (·.1)).Nodup :=
+  tableAt_keys s.store j n t h
+
 /-- **journal_replayable** — at every moment the journal replays without error, both up to
     HEAD (what readers see) and up to its end. -/
 theorem journal_replayable (j : Nat) (s : Sys) (h : Reach j s) :
@@ -126,7 +136,13 @@ theorem failed_op_invisible (s : Store) (j : Nat) (jc : JCache) (k : JKind) (pc 
   clients, any interleaving of branch commits, branch creations, loads, and anything at all on
   other pools and on the pools journal. -/
 
-/-- **ack_exactly_once** — every acknowledged branch commit appears exactly once in the parent
+/-- **ack_exactly_once_partial** — full statement (`ack_exactly_once`): in every reachable state every
+    acknowledged commit whose branch still exists appears exactly once in the chain from that
+    branch's tip.  Proved under the guard `ReachB j s`: pool j is not deleted (`NoReset`; without it
+    the statement is false of the code, `not_ack_exactly_once_if_pool_removed`) and none of its
+    branches is removed or renamed during the run (`NoDrop`; branch removal is covered at the
+    journal level by `constraint_exact` / `names_unique`, by the trace tie and by the
+    linearizability oracle, not by this chain theorem).  Every acknowledged branch commit appears exactly once in the parent
     chain from the tip of its branch, as a cold reader sees it (table replayed up to HEAD).  The
     proof rests on: the update's constraint was checked under exactly the preceding table
     (`constraint_exact`), the commit object is written before its journal entry and has the checked
@@ -134,7 +150,7 @@ theorem failed_op_invisible (s : Store) (j : Nat) (jc : JCache) (k : JKind) (pc 
     `Branch.commit` ever deletes — is referenced by nothing.  A change that deletes the object
     after a successful update, retries without re-reading the tip, or builds the object against
     another tip than the one checked breaks it. -/
-theorem ack_exactly_once (j : Nat) (hj : j ≠ 0) (s : Sys) (h : ReachB j s) (x : Ack)
+theorem ack_exactly_once_partial (j : Nat) (hj : j ≠ 0) (s : Sys) (h : ReachB j s) (x : Ack)
     (hx : x ∈ s.acks) (hxj : x.pool = j) :
     ∃ t tip, visibleTable s.store j = some t ∧ Table.get t x.branch = some tip ∧
       (chain s.store j tip).count x.id = 1 := by
@@ -142,16 +158,16 @@ theorem ack_exactly_once (j : Nat) (hj : j ≠ 0) (s : Sys) (h : ReachB j s) (x 
   obtain ⟨t, tip, a1, a2, a3⟩ := h3.paths x hx hxj (headOf s.store j) (Nat.le_refl _) h1.he
   exact ⟨t, tip, a1, a2, a3.count_chain (objsDecr_of_inv3 h3)⟩
 
-/-- **no_lost_update** — an acknowledged commit is never lost: it stays acknowledged and stays
+/-- **no_lost_update_partial** (same guard as `ack_exactly_once_partial`) — an acknowledged commit is never lost: it stays acknowledged and stays
     exactly once on its branch's chain in every later state, whatever other clients do (commit on
     the same or other branches, fail, retry, stop in the middle of any procedure). -/
-theorem no_lost_update (j : Nat) (hj : j ≠ 0) (s : Sys) (h : ReachB j s) (x : Ack)
+theorem no_lost_update_partial (j : Nat) (hj : j ≠ 0) (s : Sys) (h : ReachB j s) (x : Ack)
     (hx : x ∈ s.acks) (hxj : x.pool = j) (ls : List Label) (hn : NoReset j ls) (hd : NoDrop j ls) :
     x ∈ (s.run ls).acks ∧
     ∃ t tip, visibleTable (s.run ls).store j = some t ∧ Table.get t x.branch = some tip ∧
       (chain (s.run ls).store j tip).count x.id = 1 :=
   ⟨run_acks_mono ls s x hx,
-   ack_exactly_once j hj (s.run ls) (h.run ls hn hd) x (run_acks_mono ls s x hx) hxj⟩
+   ack_exactly_once_partial j hj (s.run ls) (h.run ls hn hd) x (run_acks_mono ls s x hx) hxj⟩
 
 /-- **failed_attempt_unreferenced** — while a branch commit has not created its journal entry
     (object being written, update in progress or failed, cleanup pending), its commit id occurs in
@@ -256,14 +272,14 @@ theorem fill_head_monotone (j : Nat) (f : FSys) (h : FReach j f) (ls : List FLab
   rw [key f v hv, key _ v' hv'] at hm
   exact hm
 
-/-- **fill_ack_exactly_once** — branch commits under create-then-fill puts: every acknowledged
+/-- **fill_ack_exactly_once_partial** (guard as `ack_exactly_once_partial`) — branch commits under create-then-fill puts: every acknowledged
     commit is exactly once on the chain from its branch's visible tip (atomic component; the
     entries at or below HEAD it is replayed from are complete files by `fill_journal_linear`). -/
-theorem fill_ack_exactly_once (j : Nat) (hj : j ≠ 0) (f0 : FSys) (h0 : ReachB j f0.a) (ls : List FLabel)
+theorem fill_ack_exactly_once_partial (j : Nat) (hj : j ≠ 0) (f0 : FSys) (h0 : ReachB j f0.a) (ls : List FLabel)
     (hn : NoResetF j ls) (hd : NoDropF j ls) (x : Ack) (hx : x ∈ (f0.run ls).a.acks) (hxj : x.pool = j) :
     ∃ t tip, visibleTable (f0.run ls).a.store j = some t ∧ Table.get t x.branch = some tip ∧
       (chain (f0.run ls).a.store j tip).count x.id = 1 :=
-  ack_exactly_once j hj _ (fill_reachB h0 ls hn hd) x hx hxj
+  ack_exactly_once_partial j hj _ (fill_reachB h0 ls hn hd) x hx hxj
 
 /-- Non-vacuity: a create-then-fill run on the pools journal in which client 1 reads HEAD while
     client 0 is rewriting it (empty), retries, and both inserts end up in the journal. -/
